@@ -575,6 +575,18 @@ def S_C15j():
     return [float(np.asarray(x)[0, 0]) for x in s] != [1., 3., 4.] or s._build_cache is not None
 
 
+def S_C15k():
+    # apply_affine on a view with repeated indices must transform only the streamlines the view holds
+    from nibabel.streamlines import Tractogram
+    t = Tractogram([np.full((1, 3), float(v)) for v in (1, 2, 3)], affine_to_rasmm=np.eye(4))
+    v = t[[0, 0, 0]]
+    aff = np.eye(4)
+    aff[:3, 3] = 100
+    v.apply_affine(aff)
+    got = [float(np.asarray(x)[0, 0]) for x in t.streamlines]
+    return got[1:] != [2., 3.]
+
+
 def S_C16d():
     from nibabel.streamlines import TrkFile, Tractogram
     z = 1.000005
